@@ -49,6 +49,8 @@ BUILD_CODES = [
 ]
 
 CAUSED_BY = {
+    "length-target-not-a-packet": ["build/", "length-patch-shape", "unsupported-target-kind", "length-target-bookkeeping",
+                                   "step-type-vs-member-type", "cpp-arrow-vs-member-kind", "reference-to-undeclared"],
     "field-name-is-keyword": ["build/rust/identifier", "build/java/identifier", "build/cpp/identifier", "build/python/", "build/cpp/syntax", "build/java/syntax",
                               "build/rust/syntax", "native-syntax/", "residue/", "other:", "python-empty-body"],
     "char-scalar-unsupported": ["incomplete/", "member-without-type", "other:unknown-type", "other:write-basic-type", "python-empty-body", "native-syntax/",
@@ -143,6 +145,47 @@ def real_builds(items, results):
     return {k: r for k, r in zip(meta, res)}
 
 
+LEN_TARGET = """options {
+    JavaPackage = "com.example.msg";
+    GoPackage = "msg";
+    GoModule = "example.com/msg";
+}
+
+root packet Msg {
+    u16 Kind,
+    u16 BodyLen @lengthOf(Body),
+    %s,
+    u32 Tail,
+}
+
+packet Leg {
+    u8 No,
+    string Sym,
+}
+"""
+
+
+def odd_length_target(text):
+    """does a @lengthOf of this text (default layout) aim at something other than one packet-typed / inline / match member?"""
+    m = re.search(r"@lengthOf\((\w+)\)", text)
+    if not m:
+        return False
+    t = m.group(1)
+    pk = set(re.findall(r"^(?:root )?packet (\w+)", text, re.M))
+    for l in text.split("\n"):
+        l = l.strip()
+        if re.match(r"match \w+ as %s \{" % t, l) or re.match(r"%s \{" % t, l):
+            return False
+        if re.match(r"repeat \w+ %s\b|repeat %s\b" % (t, t), l):
+            return True
+        mm = re.match(r"(\w+) %s\b" % t, l)
+        if mm and mm.group(1) in pk:
+            return False
+        if l == t + "," and t in pk:
+            return False
+    return True
+
+
 def run_c07(ctx):
     check_obligations(ctx, "C07")
     n = 50 if ctx.tier == "quick" else 800
@@ -150,8 +193,9 @@ def run_c07(ctx):
     items = []
     for i in range(n):
         # one feature at a time, so that a finding can be attributed to the construct that causes it
-        prof = ["safe", "safe", "char", "names", "kw"][i % 5]
-        cfg = {"safe": dslgen.Cfg(), "char": dslgen.Cfg(allow_char=True), "names": dslgen.Cfg(odd_names=True), "kw": dslgen.Cfg()}[prof]
+        prof = ["safe", "safe", "char", "names", "kw", "safe", "len"][i % 7]
+        cfg = {"safe": dslgen.Cfg(), "char": dslgen.Cfg(allow_char=True), "names": dslgen.Cfg(odd_names=True), "kw": dslgen.Cfg(),
+               "len": dslgen.Cfg(length_any_target=True)}[prof]
         if prof == "kw":
             saved = list(dslgen.FLD_NAMES)
             dslgen.FLD_NAMES[:] = rng.sample(dslgen.KEYWORD_NAMES, 6) + saved[:10]
@@ -167,8 +211,11 @@ def run_c07(ctx):
             prof = "safe"
         if prof == "names" and not any(nm in t for nm in dslgen.ODD_NAMES):
             prof = "safe"
+        if prof == "len" and not odd_length_target(t):
+            prof = "safe"
         items.append((prof, t))
     items += [("safe", t) for t in pipeline.corpus_texts()]
+    items += [("len", LEN_TARGET % decl) for decl in ("string Body", "u32 Body", "char[4] Body", "repeat u16 Body", "repeat Leg Body", "repeat string Body")]
     texts = [t for _, t in items]
     results = pipeline.run_pipeline(texts, "c07-%s-%d" % (ctx.tier, ctx.seed))
     import checks_selftest as cs
@@ -192,7 +239,8 @@ def run_c07(ctx):
                 ok = True
                 real_finding = ctx.finding
                 if prof != "safe":
-                    cause = {"char": "char-scalar-unsupported", "names": "names-not-case-stable", "kw": "field-name-is-keyword"}[prof]
+                    cause = {"char": "char-scalar-unsupported", "names": "names-not-case-stable", "kw": "field-name-is-keyword",
+                             "len": "length-target-not-a-packet"}[prof]
 
                     def collapsed(sig, what, replay=None, found=True, _c=cause, _l=lang):
                         # only findings this construct can plausibly cause are folded into its signature
